@@ -157,6 +157,19 @@ pub struct Prop {
     pub direct: Option<DirectFn>,
     /// harness self-tests (oracle / recogniser against RFC tables); a failure is exit 2
     pub selftest: Option<fn() -> Result<u64, String>>,
+    /// coverage-guided stage of the thorough tier (cargo-fuzz / libFuzzer)
+    pub fuzz: Option<FuzzSpec>,
+}
+
+#[derive(Clone)]
+pub struct FuzzSpec {
+    pub target: &'static str,
+    /// executions per job (16 jobs)
+    pub runs: u64,
+    pub max_len: u32,
+    /// only crashes whose message starts with this tag belong to the property (others are reported on stderr)
+    pub tag: &'static str,
+    pub seed_corpus: Option<&'static str>,
 }
 
 // ------------------------------------------------------------------------------------------------
@@ -838,6 +851,21 @@ pub fn run_prop(p: &Prop, cfg: &RunCfg, only_sub: Option<&str>) -> i32 {
         }
     }
 
+    // coverage-guided stage (thorough tier only)
+    let mut fuzz_stats = Value::Null;
+    if cfg.thorough && only_sub.is_none() {
+        if let Some(spec) = &p.fuzz {
+            let ts = std::time::Instant::now();
+            let (stats, fails) = fuzz_stage(p, spec, cfg.seed);
+            total.evaluations += stats["executions"].as_u64().unwrap_or(0);
+            per_sub.push(json!({"sub": format!("fuzz:{}", spec.target), "kind": "coverage-guided", "evaluations": stats["executions"], "wall_s": ts.elapsed().as_secs_f64()}));
+            fuzz_stats = stats;
+            for f in fails {
+                violations.push((format!("fuzz-{}", spec.target), f, None));
+            }
+        }
+    }
+
     // known findings: one line per listed open finding of this property
     let mut kf = vec![];
     for f in &findings().open {
@@ -890,6 +918,7 @@ pub fn run_prop(p: &Prop, cfg: &RunCfg, only_sub: Option<&str>) -> i32 {
             "known_finding_hits": kf,
             "not_judged": total.not_judged,
             "selftest_cases": selftests,
+            "fuzz": fuzz_stats,
             "shards": SHARDS,
         },
         "assumptions": p.assumptions,
@@ -917,6 +946,133 @@ pub fn run_prop(p: &Prop, cfg: &RunCfg, only_sub: Option<&str>) -> i32 {
     } else {
         1
     }
+}
+
+/// coverage-guided stage: 16 libFuzzer jobs of the given target, each with its own seed and corpus copy
+pub fn fuzz_stage(p: &Prop, spec: &FuzzSpec, seed: u64) -> (Value, Vec<Failure>) {
+    let fdir = verif_dir().join("harness").join("fuzz");
+    let work = fdir.join("work").join(format!("{}-{}", p.id, spec.target));
+    let _ = std::fs::remove_dir_all(&work);
+    let _ = std::fs::create_dir_all(&work);
+    // build once (rebuilds the library from /repo's working tree); no sanitizer: the oracle is in the target
+    let build = std::process::Command::new("cargo")
+        .args(["+nightly", "fuzz", "build", "-s", "none", spec.target])
+        .current_dir(&fdir)
+        .env("CARGO_NET_OFFLINE", "true")
+        .output();
+    match build {
+        Ok(o) if o.status.success() => {}
+        Ok(o) => {
+            let err = String::from_utf8_lossy(&o.stderr).to_string();
+            return (json!({"target": spec.target, "error": format!("fuzz build failed: {}", err.lines().rev().take(5).collect::<Vec<_>>().join(" | "))}), vec![]);
+        }
+        Err(e) => return (json!({"target": spec.target, "error": format!("cargo fuzz not runnable: {}", e)}), vec![]),
+    }
+    // seed corpus
+    let seeds = work.join("seeds");
+    if let Some(kind) = spec.seed_corpus {
+        let exe = std::env::current_exe().unwrap_or_default();
+        let _ = std::process::Command::new(exe).arg("dump-corpus").arg(&seeds).output();
+        let _ = kind;
+    }
+    let jobs: Vec<u64> = (0..SHARDS).collect();
+    let results: Vec<(u64, String)> = std::thread::scope(|sc| {
+        let hs: Vec<_> = jobs
+            .iter()
+            .map(|j| {
+                let (work, fdir, seeds, spec) = (work.clone(), fdir.clone(), seeds.clone(), spec.clone());
+                let j = *j;
+                sc.spawn(move || {
+                    let corpus = work.join(format!("corpus{}", j));
+                    let arts = work.join(format!("artifacts{}", j));
+                    let _ = std::fs::create_dir_all(&corpus);
+                    let _ = std::fs::create_dir_all(&arts);
+                    if let Some(kind) = spec.seed_corpus {
+                        if let Ok(rd) = std::fs::read_dir(seeds.join(kind)) {
+                            for e in rd.flatten() {
+                                let _ = std::fs::copy(e.path(), corpus.join(e.file_name()));
+                            }
+                        }
+                    }
+                    let s = (mix(seed, spec.target, j) % 0x7fff_ffff).max(1);
+                    let out = std::process::Command::new("cargo")
+                        .args(["+nightly", "fuzz", "run", "-s", "none", spec.target])
+                        .arg(&corpus)
+                        .arg("--")
+                        .arg(format!("-runs={}", spec.runs))
+                        .arg(format!("-max_len={}", spec.max_len))
+                        .arg(format!("-seed={}", s))
+                        .arg("-len_control=0")
+                        .arg("-timeout=25")
+                        .arg("-rss_limit_mb=4096")
+                        .arg("-print_final_stats=1")
+                        .arg(format!("-dict={}", fdir.join("jsonpath.dict").display()))
+                        .arg(format!("-artifact_prefix={}/", arts.display()))
+                        .current_dir(&fdir)
+                        .env("CARGO_NET_OFFLINE", "true")
+                        .output();
+                    match out {
+                        Ok(o) => (j, String::from_utf8_lossy(&o.stderr).to_string()),
+                        Err(e) => (j, format!("spawn failed: {}", e)),
+                    }
+                })
+            })
+            .collect();
+        hs.into_iter().filter_map(|h| h.join().ok()).collect()
+    });
+    let mut execs = 0u64;
+    let mut cov = 0u64;
+    let mut units = 0u64;
+    let mut fails = vec![];
+    let mut other = vec![];
+    for (j, log) in &results {
+        for l in log.lines() {
+            if let Some(v) = l.strip_prefix("stat::number_of_executed_units:") {
+                execs += v.trim().parse::<u64>().unwrap_or(0);
+            }
+            if let Some(v) = l.strip_prefix("stat::new_units_added:") {
+                units += v.trim().parse::<u64>().unwrap_or(0);
+            }
+            if let Some(i) = l.find(" cov: ") {
+                if let Some(n) = l[i + 6..].split_whitespace().next().and_then(|x| x.parse::<u64>().ok()) {
+                    cov = cov.max(n);
+                }
+            }
+        }
+        // a crash: the panic message carries the property tag and (for evaldiff) the case
+        let crashed = log.contains("Test unit written to") || log.contains("panicked at");
+        if crashed {
+            let msg_line = log.lines().skip_while(|l| !l.contains("panicked at")).nth(1).unwrap_or("").trim().to_string();
+            let artifact = log.lines().find_map(|l| l.split("Test unit written to ").nth(1)).unwrap_or("").trim().to_string();
+            let bytes = std::fs::read(&artifact).unwrap_or_default();
+            let case = if let Some(i) = msg_line.find(" :: ") {
+                serde_json::from_str::<Value>(&msg_line[i + 4..]).unwrap_or(json!({"artifact": artifact}))
+            } else if spec.target == "nopanic" {
+                let (q, d) = match bytes.iter().position(|b| *b == 0xFF) {
+                    Some(i) => (bytes[..i].to_vec(), bytes[i + 1..].to_vec()),
+                    None => (bytes.clone(), b"[1,[2,{\"a\":[3,null]}],\"x\"]".to_vec()),
+                };
+                json!({"query": String::from_utf8_lossy(&q), "doc": serde_json::from_slice::<Value>(&d).unwrap_or(Value::Null)})
+            } else {
+                json!({"query": String::from_utf8_lossy(&bytes)})
+            };
+            let f = Failure::new(format!("libFuzzer target `{}` (job {}): {}", spec.target, j, if msg_line.is_empty() { "crash (no panic message: abort, timeout or out of memory)" } else { &msg_line }), case);
+            if msg_line.starts_with(spec.tag) || (spec.tag == "C08" && !msg_line.starts_with("C0")) {
+                fails.push(f);
+            } else {
+                other.push(f.msg.clone());
+            }
+        }
+    }
+    for o in &other {
+        eprintln!("note: fuzz stage saw a failure that belongs to another property: {}", o);
+    }
+    let _ = std::fs::remove_dir_all(&work);
+    (
+        json!({"engine": "libFuzzer (cargo-fuzz), coverage-guided, oracle inside the target", "target": spec.target, "jobs": SHARDS, "executions": execs, "new_corpus_units": units, "coverage_edges(max over jobs)": cov,
+               "crashes_for_this_property": fails.len(), "crashes_for_other_properties": other.len()}),
+        fails,
+    )
 }
 
 /// replay a file written by `write_replay` (or a direct case)
